@@ -236,4 +236,7 @@ Definition run (name : string) (a : val) : val :=
          let '(gs, g1, g2) := diagonalize2 (dStr a0) (dStr a1) (dN a2) in VL [eL eStr gs; eStr g1; eStr g2]
   else if is name "random_clifford_from" then
          eL eStr (random_clifford_from (dN a0) (dL (fun v => (dStr (arg v 0), dStr (arg v 1))) a1))
+  else if is name "random_pauli_from" then
+         eL eStr (random_pauli_from (dL (fun v => (dStr (arg v 0), dStr (arg v 1))) a0))
+  else if is name "symplectic" then eB (symplectic_b (dL dStr a0))
   else VE 99.
